@@ -308,6 +308,12 @@ func bestPracticesCheck(token jwt.Token) error {
 		}
 	}
 
+	// Ensure exp is a real point in time. jwt.Validate() treats an exp of 0 (the Unix epoch, also 0.5 or "0") as "exp not set"
+	// and then does not check it at all, so such a token would never expire.
+	if token.Expiration().Unix() <= 0 {
+		return errors.New("token exp is not a valid time")
+	}
+
 	// Ensure JTI is a UUID
 	jti := tokenJTI(token)
 	if _, err := uuid.Parse(jti); err != nil {
